@@ -48,7 +48,23 @@ SIG_TB = [
 SIG_RULE = ('seeded sequences of 25-60 BeginBlocker calls over a pool of 1-40 validators (some without a key for the chain): all-equal powers, powers 1..5, one dominant validator (1e12 vs <=1e6), '
             'near ties around the 5% boundary, random up to 2^30; nearly equal addresses; per step random bonding/unbonding and delegation changes. A case agrees when the current set, the latest set and the nonce match after every step.')
 
+REG_TB = [
+    'model: coq/Hub/Registry.v (SetDelegateKeys with the two in-use scans, getSignerValidator, SubmitTxConfirmation, the *TxConfirmations and Unsigned*Txs queries) is hand-written; '
+    'tied to /repo by co-executing registration/confirmation histories on the real msg server (real secp256k1 signatures over DelegateKeysSignMsg, real account sequences in x/auth) and the real gRPC query methods',
+    'abstractions: the signature check enters the model as "the address go-ethereum recovers from the message\'s signature over (validator, sequence-1)"; that the transaction is signed by the validator\'s own account is the SDK\'s GetSigners/ante handler (not modelled); '
+    'chain ids are taken as exact map keys (registrations for chain ids that are byte-prefixes of each other are only over-restricted by the real scans); the confirmation signature itself is not verified by the code (stated in DESIGN.md)',
+]
+REG_RULE = ('seeded histories of 50-120 operations for 2-5 validators, 4 orchestrator accounts, 6 external keys, chains ethereum/bsc/hub: registrations (fresh, re-registration, address or orchestrator already in use, unknown validator, zero address, '
+            'signature over a stale sequence, by another key, truncated), confirmations of signer sets / batches / contract calls (by validator, orchestrator, stranger; wrong chain, unknown tx, wrong or zero claimed signer, duplicates), '
+            'bonding changes, new outgoing txs; after every operation all three maps, the confirmations of every outgoing tx and the unsigned lists for every asker are compared.')
+
 PROPS = {
+    'C16': {'suites': [{'name': 'reg', 'quick': '-n 150 -ops 60', 'thorough': '-n 1500 -ops 120', 'shards': {'quick': 2, 'thorough': 16}}],
+            'trusted_base': REG_TB, 'rule': REG_RULE,
+            'assumptions': ['store-index prefixes of different outgoing txs are not prefixes of each other (true for signer sets and batches; contract-call scopes are variable length: noted in DESIGN.md)']},
+    'C17': {'suites': [{'name': 'reg', 'quick': '-n 150 -ops 60', 'thorough': '-n 1500 -ops 120', 'shards': {'quick': 2, 'thorough': 16}}],
+            'trusted_base': REG_TB, 'rule': REG_RULE,
+            'assumptions': ['chain ids consist of bytes (hypothesis realbytes); the tx signer is the validator account (SDK GetSigners)']},
     'C14': {'suites': [{'name': 'claim', 'quick': '-n 4000', 'thorough': '-n 60000', 'shards': {'quick': 2, 'thorough': 16}}],
             'trusted_base': [
                 'model: coq/Ext/ClaimHash.v (type tag + 8-byte length-prefixed fields of each event type; sdk.Int as sign byte + minimal big-endian magnitude; members in Sort() order) is hand-written; '
@@ -107,6 +123,12 @@ _HUB_NOTE = ('Trusted: Coq 8.16.1 kernel (vm_compute, no native_compute), extrac
 _VOTES_NOTE = ('Trusted: Coq kernel, extraction + driver, Go harness; the hand-written votes model is tied to /repo by co-execution on the real msg server/EndBlocker; '
                'staking, orchestrator registry and claim hash are inputs.')
 TEXT = {
+    'C16': {'technique': 'Coq iff-characterisation of the confirmation handler and of the queries + refutation witness + correspondence',
+            'level': 'Theorems: a confirmation is recorded iff (configured chain, signer resolves to a bonded validator, tx exists, registered address set and equal to the claimed signer, none stored yet), at most once per validator and tx, queries return exactly the stored signatures of that index; attribution to the right address is refuted after re-registration by a kernel-checked witness (known finding). Monitors on the implementation incl. the Unsigned* queries.',
+            'note': 'Trusted: Coq kernel, extraction + driver, Go harness; staking and account sequences are inputs.'},
+    'C17': {'technique': 'Coq invariant by induction over registration histories + correspondence with real signatures',
+            'level': 'Theorems for all histories: per chain an external address is bound to at most one validator; every validator->address and orchestrator->validator binding stems from a successful registration of that validator; success requires an unused address and orchestrator and a signature recovering to the address over (validator, sequence-1); orchestrators resolve to their validator. Monitors on the implementation.',
+            'note': 'Trusted: Coq kernel, extraction + driver, Go harness; ECDSA recovery computed by go-ethereum in the harness.'},
     'C14': {'technique': 'Coq injectivity proof of the hashed encoding (framing, fixed-width and minimal big-endian lemmas) + equality-pattern correspondence',
             'level': 'Theorem: for all admissible events of any two types, equal hashed byte strings imply the same type and equal values of every field (so, with a collision-free SHA-256, events differing in any effect field get different claim ids). The encoding model is tied to the real Hash() by equality patterns over generated mutant pairs.',
             'note': 'Trusted: Coq kernel, extraction + driver, Go harness; SHA-256 collision resistance assumed.'},
